@@ -88,11 +88,11 @@ where
     crate::witness!(last.as_index() == 0, "lowest symbol index");
 }
 
-//@ C06 quick 800 AVX2 stripe memory checks, DNA, L=1000 (R=32, last column short: the transpose block must not read past the sequence), then re-stripe L=40 | kani=--no-assertion-reach-checks | mem=20
+//@ C06 quick 800 AVX2 stripe memory checks, DNA, L=1000 (R=32, last column short: the transpose block must not read past the sequence), then re-stripe L=40 | kani=--no-assertion-reach-checks | mem=12
 harness!(avx2mem, 1100, c06_avx2_stripe_dna_l1000, stripe_body::<Dna, 1000, 40>());
 //@ C06 thorough 10800 AVX2 stripe memory checks, DNA, L=1024 (one full 32x32 block), then re-stripe L=0 | kani=--no-assertion-reach-checks | mem=20
 harness!(avx2mem, 1100, c06_avx2_stripe_dna_l1024, stripe_body::<Dna, 1024, 0>());
-//@ C06 quick 800 AVX2 stripe memory checks, DNA, L=993 (smallest length entering the block loop with a partial last column) | kani=--no-assertion-reach-checks | mem=20
+//@ C06 quick 800 AVX2 stripe memory checks, DNA, L=993 (smallest length entering the block loop with a partial last column) | kani=--no-assertion-reach-checks | mem=12
 harness!(avx2mem, 1100, c06_avx2_stripe_dna_l993, stripe_body::<Dna, 993, 33>());
 //@ C06 thorough 10800 AVX2 stripe memory checks, protein, L=1056 (R=33: one block + one scalar row) | kani=--no-assertion-reach-checks | mem=20
 harness!(avx2mem, 1100, c06_avx2_stripe_protein_l1056, stripe_body::<Protein, 1056, 1>());
